@@ -43,6 +43,7 @@ func checkC11(c *Ctx) {
 		c11Cancel(c, a)
 		c11Blocking(c, a)
 		c11Close(c, a)
+		c11CallWaits(c, a)
 		c12Retry(c, a)
 		sentinelFresh(c, a)
 		// "the transaction id is free again" and "later calls complete" need pendingMu released on every exit of every
@@ -621,6 +622,42 @@ func calleeMayBlock(f *ssa.Function, depth int) bool {
 		}
 	})
 	return blk
+}
+
+// c11CallWaits: K10 — on the way of a call (SendAndRead, its try closure, send, the retry driver and what they call
+// synchronously inside the package) the only place a goroutine waits for another goroutine or for time is the wait
+// select, whose cases include the context, the client's shutdown and the try's deadline. A sleep, a token bucket, a
+// semaphore or a second select anywhere else on that way is a wait that cancellation, Close and the deadline cannot end.
+func c11CallWaits(c *Ctx, a *clientAnchors) {
+	r := c.R
+	w, _ := resolveWait(c, a)
+	roots := []*ssa.Function{a.sar, a.try, a.send, a.retry}
+	n := 0
+	for _, g := range syncClosure(c.P, roots, 3) {
+		if g.Pkg != a.pkg && (g.Parent() == nil || g.Parent().Pkg != a.pkg) {
+			pk := g
+			for pk.Parent() != nil {
+				pk = pk.Parent()
+			}
+			if pk.Pkg != a.pkg {
+				continue
+			}
+		}
+		if g == a.cancel {
+			continue // judged by K4 (close(done) before Lock)
+		}
+		for _, op := range waitOpsIn(g) {
+			if w != nil && op.in == ssa.Instruction(w.sel) {
+				continue
+			}
+			n++
+			r.Violation("C11-K10", a.short+": a call waits only in its wait select: "+op.what+" in "+shortName(g), c.P.ipos(op.in),
+				"a "+op.what+" on the way of a call outside the wait select: while it waits neither the caller's context, nor Close, nor the try's deadline can end the call")
+		}
+	}
+	if n == 0 {
+		r.OK("C11-K10", a.short+": a call waits only in its wait select", c.P.pos(a.sar.Pos()), "no other waiting operation in SendAndRead, the try, send, the retry driver and their synchronous callees", "")
+	}
 }
 
 func c11Close(c *Ctx, a *clientAnchors) {
